@@ -115,6 +115,62 @@ def make(keys, widths, sym_positions, veto):
     return mk, replay
 
 
+def make_twice(nrows):
+    """the same Reader iterated twice over a re-readable source, with an IsUnique check: the second pass accepts and
+    rejects exactly the rows the first pass did (a row is judged by the data set being read, not by earlier passes)"""
+    keys = ("ch", "t01")
+    names = rf.field_names(keys)
+    text = rf.cid_text(keys, checks=("c,uniq,IsUnique,%s" % names[0],))
+
+    def go(header, cells):
+        from cutplace import validio, errors
+
+        rows = [[cells[2 * r], cells[2 * r + 1]] for r in range(nrows)]
+        for r in range(nrows):
+            assume(len(rows[r][0]) == 1 and 97 <= ord(rows[r][0]) <= 99)
+            assume(len(rows[r][1]) <= 2)
+        cid = rf.build_cid(text)
+        rf.set_header(cid, header)
+        seen = {}
+        exp = []
+        for i, row in enumerate(rows, 1):
+            if i <= header:
+                continue
+            if not rf.FIELD_POOL["ch"].ok(row[0]):
+                exp.append(("err", i - 1, 0))
+            elif not rf.FIELD_POOL["t01"].ok(row[1]):
+                exp.append(("err", i - 1, 1))
+            else:
+                dup = False
+                for kx in seen:
+                    if kx == row[0]:
+                        dup = True
+                if dup:
+                    exp.append(("err", i - 1, 0))
+                else:
+                    seen[row[0]] = True
+                    exp.append(("row", row))
+        with patched(rf.smart_repr(), *rf.srows_patches()):
+            got, raised = rf.run_api(cid, rf.CountingRows(rows), "reader-twice")
+        ok = raised is None and rf.same_output(got, [e + (None,) if e[0] == "err" else e for e in exp + exp])
+        return ok, rf.classify(exp), rows, got, exp
+
+    def mk(mode):
+        def h(header: int, c0: str, c1: str, c2: str, c3: str, c4: str, c5: str):
+            assume(0 <= header <= 1)
+            ok, cls, _, _, _ = go(header, [c0, c1, c2, c3, c4, c5])
+            return ok, cls
+
+        return h
+
+    def replay(args):
+        ok, cls, rows, got, exp = go(args["header"], [args["c%d" % i] for i in range(6)])
+        return (not ok), "one Reader iterated twice over %r (IsUnique on the first field): got %r, expected twice %r" % (
+            rows, got, exp), "row-verdict-second-pass"
+
+    return mk, replay
+
+
 def shapes(tier, rnd):
     field_lists = [("t12",), ("ch", "t01"), ("t12", "ch", "t1")]
     if tier == "thorough":
@@ -164,6 +220,11 @@ def build(tier, seed):
                              % (keys, widths, sorted(sym), ", vetoing row check" if veto else ""),
                              budget_s=240 if tier == "quick" else 900, per_path_timeout=60, replay=rp, functions=FUNCS,
                              stubs=STUBS))
+    for nrows in ((2,) if tier == "quick" else (2, 3)):
+        mk, rp = make_twice(nrows)
+        queries.append(Query("C04/reader-twice/unique/rows=%d" % nrows, "rowflow-twice", mk,
+                             "fields ch+t01 with IsUnique, %d rows (key a/b/c, value len<=2), header 0..1, the same Reader "
+                             "iterated twice" % nrows, budget_s=600, per_path_timeout=60, replay=rp, functions=FUNCS, stubs=STUBS))
     return dict(queries=queries,
                 assumptions=["rows reach validio exactly as the container reader yields them (S-ROWS)",
                              "per-field verdicts of the pool fields (Text with length, Choice) are the simple predicates "
